@@ -591,9 +591,123 @@ Proof.
   destruct (rd_cmd_of c) as [[]|]; [| | | |discriminate]; intros H; injection H as <-; apply bytes_eqb_refl.
 Qed.
 
+(* ---- wire round trip ---- *)
+Lemma as_LB_vLB l : as_LB (vLB l) = Some l.
+Proof.
+  unfold as_LB, vLB. rewrite map_map. simpl.
+  induction l as [|x l IH]; simpl; [reflexivity|]. rewrite IH. reflexivity.
+Qed.
+Lemma dec_enc_hdr h : dec_hdr (enc_hdr h) = Some h.
+Proof.
+  unfold dec_hdr, enc_hdr.
+  induction h as [|[k vs] r IH]; [reflexivity|].
+  cbn [map fst snd]. unfold dec_hkv at 1. rewrite as_LB_vLB. cbn [all_some]. rewrite IH. reflexivity.
+Qed.
+Lemma dec_enc_st st : dec_st (enc_st st) = Some st.
+Proof.
+  destruct st as [[h p q] [m|]]; unfold enc_st, dec_st, enc_cache, dec_cache; cbn [s_url s_cache u_host u_path u_query].
+  - pose proof (dec_enc_hdr m) as Hm. unfold enc_hdr in *. rewrite Hm. reflexivity.
+  - reflexivity.
+Qed.
+
+(* ---- reload histories of the rewrite table ---- *)
+Lemma all_valid_ok c : all_valid c = true -> rw_conf_ok c = true.
+Proof.
+  unfold all_valid, rw_conf_ok, rules_accept. intros H. apply forallb_forall. intros pr Hpr.
+  rewrite forallb_forall in H. specialize (H pr Hpr). apply forallb_forall. intros r Hr.
+  rewrite forallb_forall in H. specialize (H r Hr). apply forallb_forall. intros a Ha.
+  rewrite forallb_forall in H. apply valid_rewrite_accepted. apply H. exact Ha.
+Qed.
+Lemma prop_rw_ops_model t ops : prop_rw_ops t ops (run_rw_ops t ops) = true.
+Proof.
+  revert t. induction ops as [|o rest IH]; intros t; [reflexivity|].
+  destruct o as [c|p u]; cbn [run_rw_ops prop_rw_ops].
+  - unfold rw_table_load. destruct (rw_conf_ok c) eqn:Eok.
+    + change (is_load_ok (VL [VZ 1])) with true. cbn iota. apply IH.
+    + change (is_load_ok (VErr 1)) with false. cbn iota. rewrite val_eqb_refl, IH. cbn [andb]. rewrite andb_true_r.
+      apply negb_true_iff. destruct (all_valid c) eqn:Ev; [|reflexivity]. rewrite (all_valid_ok _ Ev) in Eok. discriminate.
+  - unfold rw_request. destruct (rw_lookup p t) as [rs|].
+    + rewrite dec_enc_st, IH. reflexivity.
+    + rewrite val_eqb_refl, IH. reflexivity.
+Qed.
+(* a successful reload replaces the table: the rest of the history does not depend on what was loaded before *)
+Lemma rw_reload_replaces t c ops : rw_conf_ok c = true -> run_rw_ops t (RLoad c :: ops) = VL [VZ 1] :: run_rw_ops c ops.
+Proof. intros H. cbn [run_rw_ops]. unfold rw_table_load. rewrite H. reflexivity. Qed.
+Lemma rw_dropped_product_untouched t c p u ops :
+  rw_conf_ok c = true -> rw_lookup p c = None ->
+  run_rw_ops t (RLoad c :: RReq p u :: ops) = VL [VZ 1] :: enc_st (mkSt u None) :: run_rw_ops c ops.
+Proof. intros H Hl. rewrite rw_reload_replaces by exact H. cbn [run_rw_ops]. unfold rw_request. rewrite Hl. reflexivity. Qed.
+
+(* ---- reload histories of the redirect table ---- *)
+Lemma rd_valid_ok c : rd_valid c = true -> rd_conf_ok c = true.
+Proof.
+  unfold rd_valid, rd_conf_ok. intros H. apply forallb_forall. intros pr Hpr.
+  rewrite forallb_forall in H. specialize (H pr Hpr). apply forallb_forall. intros r Hr.
+  rewrite forallb_forall in H. specialize (H r Hr). unfold rd_rule_ok.
+  destruct (snd (fst r)) as [|[cmd ps] [|]]; try discriminate.
+  apply andb_true_iff in H. destruct H as [Hv Hs]. rewrite Hs, andb_true_r.
+  apply (valid_redirect_accepted _ _ Hv).
+Qed.
+Lemma rd_step_prop_model t p u : rd_step_prop t p u (enc_rd (rd_request t p u)) = true.
+Proof.
+  unfold rd_step_prop, rd_request. destruct (rd_lookup p t) as [rs|]; [|reflexivity].
+  destruct (rd_first_match rs) as [[[m acts] st]|]; [|reflexivity].
+  destruct acts as [|[cmd ps] [|]]; try reflexivity.
+  unfold redirect_effect. destruct (rd_cmd_of cmd) as [[]|]; cbn [enc_rd rd_do];
+    rewrite ?bytes_eqb_refl, Z.eqb_refl; reflexivity.
+Qed.
+Lemma prop_rd_ops_model t ops : prop_rd_ops t ops (run_rd_ops t ops) = true.
+Proof.
+  revert t. induction ops as [|o rest IH]; intros t; [reflexivity|].
+  destruct o as [c|p u]; cbn [run_rd_ops prop_rd_ops].
+  - unfold rd_table_load. destruct (rd_conf_ok c) eqn:Eok.
+    + change (is_load_ok (VL [VZ 1])) with true. cbn iota. apply IH.
+    + change (is_load_ok (VErr 1)) with false. cbn iota. rewrite val_eqb_refl, IH. cbn [andb]. rewrite andb_true_r.
+      apply negb_true_iff. destruct (rd_valid c) eqn:Ev; [|reflexivity]. rewrite (rd_valid_ok _ Ev) in Eok. discriminate.
+  - rewrite rd_step_prop_model, IH. reflexivity.
+Qed.
+Lemma rd_reload_replaces t c ops : rd_conf_ok c = true -> run_rd_ops t (DLoad c :: ops) = VL [VZ 1] :: run_rd_ops c ops.
+Proof. intros H. cbn [run_rd_ops]. unfold rd_table_load. rewrite H. reflexivity. Qed.
+Lemma rd_dropped_product_not_redirected t c p u ops :
+  rd_conf_ok c = true -> rd_lookup p c = None ->
+  run_rd_ops t (DLoad c :: DReq p u :: ops) = VL [VZ 1] :: VL [VZ 0] :: run_rd_ops c ops.
+Proof. intros H Hl. rewrite rd_reload_replaces by exact H. cbn [run_rd_ops]. unfold rd_request. rewrite Hl. reflexivity. Qed.
+
+(* ---- reload histories of the header table ---- *)
+Lemma hd_valid_ok c : hd_valid c = true -> hd_conf_ok c = true.
+Proof.
+  unfold hd_valid, hd_conf_ok. intros H. apply forallb_forall. intros pr Hpr.
+  rewrite forallb_forall in H. specialize (H pr Hpr). apply forallb_forall. intros r Hr.
+  rewrite forallb_forall in H. specialize (H r Hr). unfold hd_rule_ok.
+  apply andb_true_iff in H. destruct H as [Hne Ha]. rewrite Hne. cbn [andb].
+  apply forallb_forall. intros a Hin. rewrite forallb_forall in Ha. specialize (Ha a Hin).
+  destruct (valid_header_accepted _ _ Ha) as [H1 H2]. unfold hd_action_ok. rewrite H1.
+  destruct (header_cmd (fst a)); [reflexivity|congruence].
+Qed.
+Lemma prop_hd_ops_model vars t ops : prop_hd_ops t ops (run_hd_ops vars t ops) = true.
+Proof.
+  revert t. induction ops as [|o rest IH]; intros t; [reflexivity|].
+  destruct o as [c|p a b]; cbn [run_hd_ops prop_hd_ops].
+  - unfold hd_table_load. destruct (hd_conf_ok c) eqn:Eok.
+    + change (is_load_ok (VL [VZ 1])) with true. cbn iota. apply IH.
+    + change (is_load_ok (VErr 1)) with false. cbn iota. rewrite val_eqb_refl, IH. cbn [andb]. rewrite andb_true_r.
+      apply negb_true_iff. destruct (hd_valid c) eqn:Ev; [|reflexivity]. rewrite (hd_valid_ok _ Ev) in Eok. discriminate.
+  - unfold hd_request, hd_side. rewrite IH, andb_true_r.
+    destruct (hd_lookup s_global t), (hd_lookup p t); rewrite ?dec_enc_hdr; try reflexivity. apply val_eqb_refl.
+Qed.
+Lemma hd_reload_replaces vars t c ops :
+  hd_conf_ok c = true -> run_hd_ops vars t (HLoad c :: ops) = VL [VZ 1] :: run_hd_ops vars c ops.
+Proof. intros H. cbn [run_hd_ops]. unfold hd_table_load. rewrite H. reflexivity. Qed.
+Lemma hd_dropped_product_untouched vars t c p a b ops :
+  hd_conf_ok c = true -> hd_lookup s_global c = None -> hd_lookup p c = None ->
+  run_hd_ops vars t (HLoad c :: HReq p a b :: ops) = VL [VZ 1] :: VL [enc_hdr a; enc_hdr b] :: run_hd_ops vars c ops.
+Proof.
+  intros H Hg Hl. rewrite hd_reload_replaces by exact H. cbn [run_hd_ops]. unfold hd_request, hd_side. rewrite Hg, Hl. reflexivity.
+Qed.
+
 Lemma spec_model ci : spec ci (model ci) = true.
 Proof.
-  destruct ci as [c p u | c p a b vars | c p u | c p u h | rs u]; unfold model, spec.
+  destruct ci as [c p u | c p a b vars | c p u | c p u h | rs u | ops | ops | ops vars]; unfold model, spec.
   - destruct (rewrite_run c p u) as [u'|] eqn:E.
     + unfold rewrite_run in E. destruct (rewrite_accepts c p); [|discriminate]. injection E as <-.
       apply rewrite_effect_st_model.
@@ -621,26 +735,11 @@ Proof.
     assert (rules_accept rs = true); [|congruence].
     unfold rules_accept. apply forallb_forall. intros r Hr. rewrite forallb_forall in Ev. specialize (Ev r Hr).
     apply forallb_forall. intros a Ha. rewrite forallb_forall in Ev. apply valid_rewrite_accepted. apply Ev. exact Ha.
+  - apply prop_rw_ops_model.
+  - apply prop_rd_ops_model.
+  - apply prop_hd_ops_model.
 Qed.
 
-(* ---- wire round trip ---- *)
-Lemma as_LB_vLB l : as_LB (vLB l) = Some l.
-Proof.
-  unfold as_LB, vLB. rewrite map_map. simpl.
-  induction l as [|x l IH]; simpl; [reflexivity|]. rewrite IH. reflexivity.
-Qed.
-Lemma dec_enc_hdr h : dec_hdr (enc_hdr h) = Some h.
-Proof.
-  unfold dec_hdr, enc_hdr.
-  induction h as [|[k vs] r IH]; [reflexivity|].
-  cbn [map fst snd]. unfold dec_hkv at 1. rewrite as_LB_vLB. cbn [all_some]. rewrite IH. reflexivity.
-Qed.
-Lemma dec_enc_st st : dec_st (enc_st st) = Some st.
-Proof.
-  destruct st as [[h p q] [m|]]; unfold enc_st, dec_st, enc_cache, dec_cache; cbn [s_url s_cache u_host u_path u_query].
-  - pose proof (dec_enc_hdr m) as Hm. unfold enc_hdr in *. rewrite Hm. reflexivity.
-  - reflexivity.
-Qed.
 Lemma dec_out_st ci st : (match ci with IRewrite _ _ _ | IRules _ _ => True | _ => False end) ->
   dec_out ci (enc_st st) = Some (OUrl st).
 Proof.
@@ -649,7 +748,7 @@ Proof.
 Qed.
 Lemma dec_enc_out ci : dec_out ci (enc_out (model ci)) = Some (model ci).
 Proof.
-  destruct ci as [c p u | c p a b vars | c p u | c p u h0 | rs u]; unfold model.
+  destruct ci as [c p u | c p a b vars | c p u | c p u h0 | rs u | ops | ops | ops vars]; unfold model.
   - destruct (rewrite_run c p u) as [st|]; [|reflexivity]. apply dec_out_st. exact I.
   - destruct (header_run vars c p a b) as [[a' b']|]; [|reflexivity].
     pose proof (dec_enc_hdr a') as Ha. pose proof (dec_enc_hdr b') as Hb.
@@ -659,6 +758,9 @@ Proof.
     pose proof (dec_enc_hdr h') as Hb. pose proof (dec_enc_st st) as Hs.
     unfold enc_out, dec_out. unfold enc_hdr, enc_st in *. rewrite Hs, Hb. reflexivity.
   - destruct (rewrite_rules_run rs u) as [st|]; [|reflexivity]. apply dec_out_st. exact I.
+  - reflexivity.
+  - reflexivity.
+  - reflexivity.
 Qed.
 
 Lemma prop_C49_of_model i : wf_C49 i = true -> prop_C49 i (run_C49 i) = true.
